@@ -88,6 +88,9 @@ def _pure(e):
         return True
     if isinstance(e, ast.Tuple):
         return all(_pure(x) for x in e.elts)
+    if isinstance(e, ast.Subscript) and isinstance(e.ctx, ast.Load):
+        # a read like xs[0] / d[k]: evaluating it twice inside one expression means the same
+        return _pure(e.value) and _pure(e.slice)
     return False
 
 
